@@ -472,10 +472,16 @@ def r_views_special_values(ctx, db, est, ln, consts=None):
     if ln < 1:
         return
     vectors = [("infinite-outer-edges", [-math.inf] + [float(2 * i - ln) for i in range(1, ln)] + [math.inf]),
-               ("subnormal-width", [0.0, 4e-309] + [float(i) for i in range(1, ln)])]
+               ("subnormal-width", [0.0, 4e-309] + [float(i) for i in range(1, ln)]),
+               # a repeated edge (legal): an empty zero-width first bin; every view still has LEN items
+               ("zero-width", [1.0] + [float(i) for i in range(1, ln + 1)])]
     counts = [(3 * j) % 4 for j in range(ln)]          # concrete counts, the first bin empty
+    def ieee_div(c, w):
+        if w == 0:
+            return float("nan") if c == 0 else math.copysign(math.inf, c) * math.copysign(1.0, w)
+        return float(c) / w
     specs = (("widths", lambda a, b, c: b - a), ("centers", lambda a, b, c: 0.5 * (a + b)),
-             ("normalized_bins", lambda a, b, c: float(c) / (b - a)))
+             ("normalized_bins", lambda a, b, c: ieee_div(c, b - a)))
     for vname, edges in vectors:
         for name, spec in specs:
             _special_view(ctx, db, est, ln, consts, vname, edges, counts, name, spec)
@@ -691,11 +697,22 @@ def r_bin_variance_range(ctx, db, est, ln, consts=None):
             ctx.ob("R-SIGN", "bin-variance-range:LEN=%d:bin=%d" % (ln, j), vp, R.fn_site(db, vp), False,
                    "variance(%d) has no returning path with a float result: %s" % (j, [(p.status, (p.info or {}).get("kind") or (p.info or {}).get("why")) for p in paths][:3]), inc=True)
             continue
-        # the path with the fewest assumptions is the general one (others: integer division by an empty total etc.)
-        pth = min(rets, key=lambda p: len(p.pc))
-        m, v, ba = pth.machine, pth.ret, box["ba"]
+        ba = box["ba"]
+        for pi, pth in enumerate(sorted(rets, key=lambda p: len(p.pc))):
+            _bin_variance_path(ctx, db, vp, ln, j, pth, ba, "" if pi == 0 else ":path%d" % pi)
+
+
+def _bin_variance_path(ctx, db, vp, ln, j, pth, ba, tag):
+        import d7
+        import sympy as sp
+        m, v = pth.machine, pth.ret
         cv = d7.Conv(positive=lambda n: True, machine=m)
-        e = sp.cancel(sp.together(cv.conv(v)))
+        try:
+            e = sp.cancel(sp.together(cv.conv(v)))
+        except Exception as ex:
+            ctx.ob("R-SIGN", "bin-variance-range:LEN=%d:bin=%d%s" % (ln, j, tag), vp, R.fn_site(db, vp), False,
+                   "variance(%d) on path [%s] is not an expression the sign analysis can read: %s" % (j, pc_show(pth.pc)[:120], ex), inc=True)
+            return
         c = cv.conv(F.i2f(ba[j]))
         num, den = sp.fraction(e)
         import num_rules as N
@@ -707,10 +724,10 @@ def r_bin_variance_range(ctx, db, est, ln, consts=None):
         numq, denq = sp.fraction(sp.cancel(sp.together(tot / 4 - e)))
         cst, facs = sp.factor_list(numq)
         okq = ((cst > 0 and all(ex % 2 == 0 for _, ex in facs)) or N.all_nonneg_poly(numq)) and N.all_nonneg_poly(denq)
-        ctx.ob("R-SIGN", "bin-variance-quarter:LEN=%d:bin=%d" % (ln, j), vp, R.fn_site(db, vp), okq,
+        ctx.ob("R-SIGN", "bin-variance-quarter:LEN=%d:bin=%d%s" % (ln, j, tag), vp, R.fn_site(db, vp), okq,
                "total/4 - variance(%d) = %s: %s" % (j, sp.factor(tot / 4 - e), "a square (or a polynomial with non-negative coefficients) over a positive denominator, so variance <= total/4 over the reals" if okq else "not a square: the bound total/4 is not established"),
                d7=True)
-        ctx.ob("R-SIGN", "bin-variance-range:LEN=%d:bin=%d" % (ln, j), vp, R.fn_site(db, vp), ok0 and ok1,
+        ctx.ob("R-SIGN", "bin-variance-range:LEN=%d:bin=%d%s" % (ln, j, tag), vp, R.fn_site(db, vp), ok0 and ok1,
                "variance(%d) = %s is %s" % (j, e, "a ratio of polynomials with non-negative coefficients in the counts, and so is count - variance: it lies in [0, count]"
                                             if ok0 and ok1 else "not provably within [0, count]"), d7=True)
 
